@@ -33,15 +33,19 @@ SPECIAL = [("constructor", "", "Box<Op>"), ("named_constructor = \"x\"", "", "Bo
            ("iterator", "&mut self", "Option<u8>"), ("getter", "", "u8"), ("constructor", "", "Result<Box<Op>, En>"), ("named_constructor = \"y\"", "", "Option<Box<Op>>"),
            ("constructor", "", "St"), ("stringifier", "self, w: &mut DiplomatWrite", ""), ("comparison", "self, o: St", "core::cmp::Ordering")]
 crashes = collections.Counter(); examples = {}; runs = 0
+OF_LINE = "    pub struct Of { pub o: DiplomatOption<u8>, pub e: DiplomatOption<En>, pub s: DiplomatOption<St> }\n"
+rejected = collections.Counter()
 def run(src, tag):
     global runs
     with tempfile.TemporaryDirectory() as d:
         open(os.path.join(d, "lib.rs"), "w").write(src)
+        open(os.path.join(d, "lib_kt.rs"), "w").write(src.replace(OF_LINE, "") if " Of" not in src.replace(OF_LINE, "") else src)
         for be in BACKENDS:
             out = os.path.join(d, "out_" + be); os.makedirs(out, exist_ok=True)
-            r = subprocess.run([B, be, out, "--entry", os.path.join(d, "lib.rs"), "--config-file", "/nonexistent.toml", "--config", "lib_name=x", "--config", "kotlin.domain=d",
+            r = subprocess.run([B, be, out, "--entry", os.path.join(d, "lib_kt.rs" if be == "kotlin" else "lib.rs"), "--config-file", "/nonexistent.toml", "--config", "lib_name=x", "--config", "kotlin.domain=d",
                                 "--config", "unsafe_references_in_callbacks=true"], capture_output=True, text=True)
             runs += 1
+            if r.returncode == 1: rejected[be] += 1
             if r.returncode not in (0, 1):
                 ls = r.stderr.splitlines(); i = [k for k, l in enumerate(ls) if "panicked at" in l]
                 where = re.sub(r"thread '.*' \(\d+\) ", "", ls[i[0]]) if i else "exit %d" % r.returncode
@@ -60,6 +64,6 @@ for (attr, params, r) in SPECIAL:
 # traits
 for (params, r) in [("&self, x: u8", "u8"), ("&self", ""), ("&self, s: St", "En"), ("&mut self, x: &Op", ""), ("&self, x: &str", "")]:
     run(PRE + f"    pub trait Tr {{\n        fn t({params}){ret(r)};\n    }}\n    impl Op {{\n        pub fn use_tr(t: impl Tr) {{ }}\n    }}\n}}\n", f"trait ({params}) -> {r}")
-print(runs, "runs;", sum(crashes.values()), "crashes in", len(crashes), "classes")
+print(runs, "runs;", sum(crashes.values()), "crashes in", len(crashes), "classes; rejected by lowering (exit 1) per backend:", dict(rejected))
 for k, v in crashes.most_common():
     print(f"{v:4d}  {k[0]:9s} {k[1]} :: {k[2]}   e.g. {examples[k]}")
